@@ -98,6 +98,21 @@ impl Reader {
         block_check: BlockCheck,
         in_memory: bool,
     ) -> Result<(Arc<dyn Source>, Region)> {
+        // The requested range must lie inside this reader (a truncated file, for example,
+        // declares sizes bigger than what is available).
+        let in_bounds = offset
+            .into_u64()
+            .checked_add(size.into_u64())
+            .and_then(|end| end.checked_add(block_check.size() as u64))
+            .is_some_and(|end| end <= self.region.size().into_u64());
+        if !in_bounds {
+            return Err(format_error!(&format!(
+                "Range (offset {}, size {}) is out of reader of size {}",
+                offset.into_u64(),
+                size.into_u64(),
+                self.region.size().into_u64()
+            )));
+        }
         let region = self.region.cut_rel(offset, size);
         Arc::clone(&self.source).cut(region, block_check, in_memory)
     }
